@@ -16,6 +16,7 @@ from harness import scen
 import pandas as pd  # noqa: E402
 from boario import event as bev  # noqa: E402
 from boario.simulation import Simulation  # noqa: E402
+from boario.extended_models import ARIOPsiModel  # noqa: E402
 
 
 def base_table(kind="dense", m=2, n=3, k=1, seed=1, scale=1000.0):
@@ -427,6 +428,23 @@ def f24():
     tot = np.nansum(rec, axis=1)
     inc = [(i * 3, float(a), float(b)) for i, (a, b) in enumerate(zip(tot[2:], tot[3:]), start=2) if b > a * (1 + 1e-12) and a > 0]
     return not inc, f"recorded destroyed capital increases during recovery at {inc[:2]}"
+
+
+@trigger("F25", ["C20"])
+def f25():
+    """a missing (NaN) entry in the final-demand table must be rejected, not simulated"""
+    tb = base_table()
+    io = scen.build_table(tb)
+    y = io.Y.copy()
+    y.iloc[1, 0] = float("nan")
+    io.Y = y
+    try:
+        sim = Simulation(ARIOPsiModel(io), n_temporal_units_to_sim=4)
+        sim.loop()
+    except Exception:
+        return True, "rejected / reported"
+    bad = not np.isfinite(sim.final_demand_unmet.to_numpy(dtype=float)[:4]).all()
+    return (not bad) or bool(sim.has_crashed), f"accepted; non-finite values recorded: {bad}; crashed flag: {sim.has_crashed}"
 
 
 def run_all(props=None, only=None):
